@@ -142,8 +142,10 @@ class IdRules:
             if isinstance(c, tuple) and c[0] == 'op' and c[3] == idx and is_const(c[2]) and c[2][1] == self.extent:
                 if (c[1] == '<=' and o is False) or (c[1] == '>' and o is True):
                     return True
-        # x % extent
-        if isinstance(idx, tuple) and idx[0] == 'op' and idx[1] == '%' and is_const(idx[3]) and idx[3][1] == self.extent:
+        # x % extent, x & (mask < extent)
+        if isinstance(idx, tuple) and idx[0] == 'op' and idx[1] == '%' and is_const(idx[3]) and 0 < idx[3][1] <= self.extent:
+            return True
+        if isinstance(idx, tuple) and idx[0] == 'op' and idx[1] == '&' and is_const(idx[3]) and idx[3][1] < self.extent:
             return True
         return False
 
@@ -237,6 +239,23 @@ class IdRules:
         for p in self.eng.paths(gid)['paths']:
             okk = 'operator*' in show(p.ret) and self.idf in show(p.ret)
         sink.emit('C05.STABLE', 'ok' if okk else 'violated', 'GetID returns the value held by the heartbeat', '%s:%s' % (gid['file'], gid['line']), '')
+        # HasID is true exactly when the holder owns a heartbeat (independent of other owners of the control block)
+        hid = self.method('HasID')
+        for p in self.eng.paths(hid)['paths']:
+            r = p.ret
+            txt = show(r)
+            good = False
+            if isinstance(r, tuple) and r[0] == 'op' and self.idf in txt:
+                a, b = r[2], r[3]
+                uc = isinstance(a, tuple) and a[0] == 'app' and a[1] in ('use_count', 'get', 'operator bool')
+                if uc and is_const(b):
+                    good = (r[1], b[1]) in (('>', 0), ('!=', 0), ('>=', 1))
+            elif isinstance(r, tuple) and r[0] == 'ne0' and isinstance(r[1], tuple) and r[1][0] == 'app' and r[1][1] in ('operator bool', 'get', 'use_count') and self.idf in txt:
+                good = True
+            elif isinstance(r, tuple) and r[0] == 'app' and r[1] == 'operator bool' and self.idf in txt:
+                good = True
+            sink.emit('C05.STABLE', 'ok' if good else 'violated', 'HasID is true whenever the holder owns a heartbeat', '%s:%s' % (hid['file'], hid['line']),
+                      'returns %s' % txt[:80] if good else 'returns %s: a thread that already has an ID can be sent through the claim loop again' % txt[:80])
         # extents agree with the consumer (EpochManager::tls_fields_)
         em = self.fx.records.get(NS + 'EpochManager')
         if em:
@@ -262,6 +281,13 @@ class IdRules:
                 for s in symbols(e['obj'][2]):
                     pass
         steps_ok, steps = True, 0
+        probe_vars = set()
+        for p in res['paths']:
+            for e in self.flag_events(p):
+                for ev2 in p.events:
+                    if ev2['kind'] in ('assign_local', 'decl') and (ev2.get('path', (0, 0, ev2.get('name')))[2] or '') and \
+                            (ev2.get('path', (0, 0, ev2.get('name')))[2] + '~') in show(e['obj'][2]):
+                        probe_vars.add(ev2.get('path', (0, 0, ev2.get('name')))[2])
         for p in res['paths']:
             for e in p.events:
                 if e['kind'] == 'assign_local' and e['path'][2] and e['path'][0] == 'var':
@@ -269,10 +295,19 @@ class IdRules:
                     name = e['path'][2]
                     if not any(name in show(x['obj'][2]) or True for x in self.flag_events(p)):
                         continue
+                    def plus1(x):
+                        return isinstance(x, tuple) and x[0] == 'op' and x[1] == '+' and is_const(x[3]) and x[3][1] == 1
+                    N = self.extent
                     if is_const(v) and v[1] == 0:
                         steps += 1
-                    elif isinstance(v, tuple) and v[0] == 'op' and v[1] == '+' and is_const(v[3]) and v[3][1] == 1:
+                    elif plus1(v) or (is_const(v) and e.get('how') == '++'):
                         steps += 1
+                    elif isinstance(v, tuple) and v[0] == 'op' and v[1] == '%' and is_const(v[3]) and v[3][1] == N and (plus1(v[2]) or is_const(v[2])):
+                        steps += 1    # (i + 1) % capacity
+                    elif isinstance(v, tuple) and v[0] == 'op' and v[1] == '&' and is_const(v[3]) and v[3][1] == N - 1 and N & (N - 1) == 0 and (plus1(v[2]) or is_const(v[2])):
+                        steps += 1    # (i + 1) & (capacity - 1), capacity a power of two in this configuration
+                    elif e['path'][2] not in probe_vars:
+                        continue
                     else:
                         steps_ok = False
                         sink.bad('C14.PROBE', 'probe index update %s' % self.norm(v), '%s:%s' % (f['file'], e['line']), 'index must advance by one or wrap to 0')
@@ -317,11 +352,9 @@ class IdRules:
         return False
 
 
-_cache = {}
-
-
 def analyse(fx, eng):
-    k = id(fx)
+    _cache = fx.__dict__.setdefault('_rule_cache', {})
+    k = 'ids'
     if k not in _cache:
         sink = Sink()
         r = IdRules(fx, eng, sink)
